@@ -45,49 +45,63 @@ struct Event {
 }
 
 /// brute-force linearizability check (≤ 7 operations): is there an order respecting real time in
-/// which every get returns the map's value at its point, and which ends in a state whose digest
-/// is `final_digest`?
+/// which every read returns the map's value at its point, and which ends in a state whose digest
+/// is `final_digest`?  `remove` and `remove_range` are documented as not strictly atomic: they
+/// take effect in two points inside the call — a scan (which keys are present: this is what they
+/// report) and, later, the removal of exactly the scanned keys.
 fn linearizable(initial: &BTreeMap<Vec<u8>, Vec<u8>>, evs: &[Event], final_digest: &str) -> bool {
     fn digest(m: &BTreeMap<Vec<u8>, Vec<u8>>) -> String {
         let s = m.iter().map(|(k, c)| format!("{}:{}:{}", hx(k), hx(blake3::hash(c).as_bytes()), c.len())).collect::<Vec<_>>().join(";");
         hx(&blake3::hash(s.as_bytes()).as_bytes()[..4])
     }
-    fn rec(m: &mut BTreeMap<Vec<u8>, Vec<u8>>, evs: &[Event], used: &mut Vec<bool>, fd: &str) -> bool {
-        if used.iter().all(|u| *u) { return digest(m) == fd; }
-        // minimal response time among unused: an op can go next only if it was invoked before that
-        let min_resp = evs.iter().enumerate().filter(|(i, _)| !used[*i]).map(|(_, e)| e.resp).min().unwrap();
+    // phase: 0 = not started, 1 = scanned (two-point operations only), 2 = done
+    fn rec(m: &mut BTreeMap<Vec<u8>, Vec<u8>>, evs: &[Event], phase: &mut Vec<u8>, scanned: &mut Vec<Vec<Vec<u8>>>, fd: &str) -> bool {
+        if phase.iter().all(|p| *p == 2) { return digest(m) == fd; }
+        // an operation may take a point only if it was invoked before every unfinished operation responded
+        let min_resp = evs.iter().enumerate().filter(|(i, _)| phase[*i] < 2).map(|(_, e)| e.resp).min().unwrap();
         for i in 0..evs.len() {
-            if used[i] || evs[i].inv > min_resp { continue; }
+            if phase[i] == 2 || evs[i].inv > min_resp { continue; }
             let e = &evs[i];
             let saved = m.clone();
-            let ok = match &e.op {
-                Op::Put(k, c) => { m.insert(k.clone(), c.clone()); true }
-                Op::Remove(k) => { m.remove(k); true }     // reported presence: "some instant during the call"
-                Op::RemoveAll => { m.clear(); true }
-                Op::Get(k) => match m.get(k) {
+            let saved_phase = phase[i];
+            let saved_scan = scanned[i].clone();
+            let ok = match (&e.op, phase[i]) {
+                (Op::Put(k, c), _) => { m.insert(k.clone(), c.clone()); phase[i] = 2; true }
+                (Op::Remove(k), 0) => {
+                    let present = m.contains_key(k);
+                    scanned[i] = if present { vec![k.clone()] } else { vec![] };
+                    // an absent key ends the call at once
+                    phase[i] = if present { 1 } else { 2 };
+                    e.result == format!("bool_{present}")
+                }
+                (Op::RemoveAll, 0) => {
+                    scanned[i] = m.keys().cloned().collect();
+                    phase[i] = if scanned[i].is_empty() { 2 } else { 1 };
+                    e.result == format!("count_{}", scanned[i].len())
+                }
+                (Op::Remove(_), _) | (Op::RemoveAll, _) => { for k in &scanned[i] { m.remove(k); } phase[i] = 2; true }
+                (Op::Get(k), _) => { phase[i] = 2; match m.get(k) {
                     None => e.result == "absent",
                     Some(c) => e.result == format!("found_{}", hx(c)),
-                },
-                Op::GetRange(k, s, en) => match m.get(k) {
+                } }
+                (Op::GetRange(k, s, en), _) => { phase[i] = 2; match m.get(k) {
                     None => e.result == "absent",
                     Some(c) => {
                         let l = c.len() as u64;
-                        e.result == format!("found_{}", hx(&c[(*s).min(l) as usize..(*en).min(l) as usize]))
+                        e.result == format!("found_{}", hx(&c[(*s).min(l) as usize..(*en).min(l).max((*s).min(l)) as usize]))
                     }
-                },
-                _ => true,
+                } }
+                _ => { phase[i] = 2; true }
             };
-            if ok {
-                used[i] = true;
-                if rec(m, evs, used, fd) { return true; }
-                used[i] = false;
-            }
+            if ok && rec(m, evs, phase, scanned, fd) { return true; }
             *m = saved;
+            phase[i] = saved_phase;
+            scanned[i] = saved_scan;
         }
         false
     }
     let mut m = initial.clone();
-    rec(&mut m, evs, &mut vec![false; evs.len()], final_digest)
+    rec(&mut m, evs, &mut vec![0u8; evs.len()], &mut vec![Vec::new(); evs.len()], final_digest)
 }
 
 pub fn conc_cases(s: &mut Sess, rng: &mut Rng, n: u64, prop: &'static str) {
